@@ -590,6 +590,18 @@ def _desugar_body(stmts):
             if ch:
                 h.body = new
                 changed = True
+        if isinstance(st, ast.AnnAssign) and isinstance(st.target, (ast.Name, ast.Attribute)):
+            # `x: T = v` is `x = v` (the annotation is kept aside for receiver typing); a bare `x: T` is nothing
+            if st.value is None:
+                if isinstance(st.target, ast.Name):
+                    out.append(ast.copy_location(ast.Pass(), st))
+                    changed = True
+                    continue
+            else:
+                new_st = ast.copy_location(ast.Assign(targets=[st.target], value=st.value, lineno=st.lineno), st)
+                new_st._annotation = st.annotation
+                st = new_st
+                changed = True
         if isinstance(st, ast.Return) and isinstance(st.value, ast.IfExp):
             e = st.value
             a = ast.copy_location(ast.Return(value=e.body), e.body)
@@ -652,6 +664,52 @@ def relink(node):
     node._parent = keep
 
 
+def _inline_method_aliases(fnode):
+    """`f = obj.method` ... `f(x)`  ->  `obj.method(x)` when f is bound once, is only ever called, and the
+    object it is taken from is never rebound (the cached bound method of a "performance" commit)."""
+    stores = {}
+    loads = {}
+    nested_names = set()
+    for n in ast.walk(fnode):
+        if isinstance(n, (ast.FunctionDef, ast.AsyncFunctionDef, ast.Lambda, ast.ClassDef)) and n is not fnode:
+            for x in ast.walk(n):
+                if isinstance(x, ast.Name):
+                    nested_names.add(x.id)
+        if isinstance(n, ast.Name):
+            (stores if isinstance(n.ctx, (ast.Store, ast.Del)) else loads).setdefault(n.id, []).append(n)
+    params = {a.arg for a in fnode.args.posonlyargs + fnode.args.args + fnode.args.kwonlyargs}
+    if fnode.args.vararg:
+        params.add(fnode.args.vararg.arg)
+    if fnode.args.kwarg:
+        params.add(fnode.args.kwarg.arg)
+    changed = False
+    for st in [x for x in ast.walk(fnode) if isinstance(x, ast.Assign)]:
+        if len(st.targets) != 1 or not isinstance(st.targets[0], ast.Name) or not isinstance(st.value, ast.Attribute):
+            continue
+        name = st.targets[0].id
+        if name in params or name in nested_names or len(stores.get(name, [])) != 1:
+            continue
+        # the attribute chain: names and attributes only
+        base = st.value
+        while isinstance(base, ast.Attribute):
+            base = base.value
+        if not isinstance(base, ast.Name):
+            continue
+        root = base.id
+        nstores = len(stores.get(root, []))
+        if not ((root in params and nstores == 0) or (root not in params and nstores == 1 and stores[root][0].lineno < st.lineno)):
+            continue
+        uses = loads.get(name, [])
+        if not uses or not all(isinstance(getattr(u, "_parent", None), ast.Call) and u._parent.func is u for u in uses):
+            continue
+        if any(u.lineno < st.lineno for u in uses):
+            continue
+        for u in uses:
+            u._parent.func = ast.copy_location(copy.deepcopy(st.value), u)
+        changed = True
+    return changed
+
+
 def desugar(model):
     """`return a if c else b` and `x = a if c else b` become if/else statements, so that every rule sees
     the branch structure (conditions as dominating facts, one return per alternative)."""
@@ -659,7 +717,7 @@ def desugar(model):
     for q, fn in list(model.funcs.items()):
         if fn.path.endswith("posc.py"):
             continue
-        if not any(isinstance(x, ast.IfExp) or (isinstance(x, ast.Assign) and isinstance(x.targets[0], (ast.Tuple, ast.List)) and isinstance(x.value, (ast.Tuple, ast.List))) for x in ast.walk(fn.node)):
+        if False and not any(isinstance(x, (ast.IfExp, ast.AnnAssign)) or (isinstance(x, ast.Assign) and isinstance(x.targets[0], (ast.Tuple, ast.List)) and isinstance(x.value, (ast.Tuple, ast.List))) for x in ast.walk(fn.node)):
             continue
         new, ch = _desugar_body(fn.node.body)
         if ch:
@@ -667,5 +725,68 @@ def desugar(model):
             ast.fix_missing_locations(fn.node)
             relink(fn.node)
             n += 1
+    for q, fn in list(model.funcs.items()):
+        if fn.path.endswith("posc.py") or fn.parent is not None:
+            continue
+        if getattr(fn.node, "_parent", None) is None and not any(hasattr(x, "_parent") for x in fn.node.body[:1]):
+            relink(fn.node)
+        if _inline_method_aliases(fn.node):
+            ast.fix_missing_locations(fn.node)
+            relink(fn.node)
+            n += 1
     model.desugared = n
     return n
+
+
+# ---------------------------------------------------------------------------------------------------
+def undo_private_renames(model):
+    """A private function of the baseline that vanished while exactly one new function with the same
+    parameter list appeared in the same class (or module) was renamed: give it its baseline name back,
+    in the definition and at every reference, so that the rules anchored on it still find it.
+    Returns [(old name, new name, where)].  Anything ambiguous is left alone (the rule that needs the
+    anchor then answers with an analysis error)."""
+    from .anchors import PRIVATE_SIGNATURES
+
+    renames = []
+    for key, params in sorted(PRIVATE_SIGNATURES.items()):
+        path, cls, name = key.split(":")
+        here = [f for f in model.funcs.values() if f.path == path and (f.cls or "") == cls and f.parent is None]
+        if not here or any(f.name == name for f in here):
+            continue
+        if model.by_name.get(name):
+            continue  # the name lives on elsewhere (moved): not a plain rename
+        cands = [f for f in here if f.name not in KNOWN_FUNCTIONS and not f.name.startswith("__") and list(f.params) == list(params)]
+        if len(cands) != 1:
+            continue
+        g = cands[0]
+        new = g.name
+        if len(model.by_name.get(new, [])) != 1:
+            continue
+        # references in the whole library
+        for rel, (tree, _src) in model.trees.items():
+            for n in ast.walk(tree):
+                if isinstance(n, ast.Attribute) and n.attr == new:
+                    n.attr = name
+                elif isinstance(n, ast.Name) and n.id == new:
+                    n.id = name
+        g.node.name = name
+        old_qual = g.qual
+        g.name = name
+        g.qual = old_qual[: -len(new)] + name
+        model.funcs[g.qual] = model.funcs.pop(old_qual)
+        model.by_name[name].append(g)
+        model.by_name[new].remove(g)
+        if cls and model.classes.get(cls) and model.classes[cls].methods.get(new) is g:
+            del model.classes[cls].methods[new]
+            model.classes[cls].methods[name] = g
+        if not cls and model.module_funcs.get(g.module, {}).get(new) is g:
+            del model.module_funcs[g.module][new]
+            model.module_funcs[g.module][name] = g
+        # nested functions keep their qualified prefix consistent
+        for q2 in [q2 for q2 in list(model.funcs) if q2.startswith(old_qual + ".")]:
+            f2 = model.funcs.pop(q2)
+            f2.qual = g.qual + q2[len(old_qual):]
+            model.funcs[f2.qual] = f2
+        renames.append((name, new, "%s%s" % (cls + "." if cls else "", path)))
+    model.renames = renames
+    return renames
